@@ -6,6 +6,7 @@ import (
 	"fmt"
 	"io"
 	"os"
+	"github.com/douban/gobeansdb/utils"
 )
 
 const (
@@ -201,6 +202,10 @@ func (w *hintFileWriter) close() error {
 	w.fd.Write(buf[:])
 	w.fd.Close()
 	tmp := w.path + ".tmp"
+	if utils.VerifOn {
+		utils.Verif("fs.pre", "hint.dump", w.path)
+		defer utils.Verif("fs.post", "hint.dump", w.path)
+	}
 	err := os.Rename(tmp, w.path)
 	if err != nil {
 		return err
